@@ -32,7 +32,11 @@ def gen(name, consts, wd, lemmas=True, workers=1, emit=True, timeout=3000):
     inv = ["InvStruct"] + (["InvReadBackDict", "InvReadBackMatrix"] if lemmas else [])
     text = tlc.make_cfg(c, init="BInit", next_="BNext", view="BView", constraint="Bound", invariants=inv,
                         properties=["BadInputAtomic"] if lemmas else [], action_constraint="BEmit")
-    return tlc.run_tlc("MC_Builders", text, wd, workers=workers, tag=f"bgen-{name}", timeout=timeout)
+    index = explore.TransIndex() if emit else None
+    res = tlc.run_tlc("MC_Builders", text, wd, workers=workers, tag=f"bgen-{name}", timeout=timeout,
+                      on_json=index.add if emit else None, keep_stdout=False)
+    res["index"] = index
+    return res
 
 
 def run_config(run, name, consts, wd):
@@ -41,33 +45,43 @@ def run_config(run, name, consts, wd):
     run.add_model(f"lemmas:{name}", lem, {k: (sorted(v) if isinstance(v, set) else v) for k, v in consts.items()})
     g = gen(name, consts, wd, lemmas=False, workers=1, emit=True)
     run.add_model(name, g, None)
-    calls_at, states = explore.parse_transitions(g["json"])
-    del g
+    index = g.pop("index")
     t1 = time.time()
     init = ST.base_state(consts)
-    records, confirmed, st = explore.explore(consts, init, calls_at, states)
+    agg = {"bad": 0, "n": 0, "judge_s": 0.0, "chunks": 0, "sampled": False}
+    cref = {}
+
+    def sink(records):
+        brecs = [r for r in records if r["c"]["op"] in ("loaddict", "loadmat")]
+        tj = time.time()
+        agg["chunks"] += 1
+        verdicts = ST.judge("C11", consts, brecs, wd, f"{name}-{agg['chunks']}", module="JudgeBuild")
+        agg["judge_s"] += time.time() - tj
+        by_id = {r["id"]: r for r in brecs}
+        for v in verdicts:
+            r = by_id[v["id"]]
+            agg["bad"] += 1
+            run.violation(f"{r['cls']}|{'+'.join(sorted(v['fail']))}",
+                          f"{r['c']['op']} a={r['c']['a']} b={r['c']['b']} deviates from the specified result",
+                          {"kind": "builder", "config": name, "consts": {k: (sorted(x) if isinstance(x, set) else x) for k, x in consts.items()},
+                           "path": cref["c"].get(W.key(r["pre"])), "call": r["c"],
+                           "observed": {"pre": r["pre"], "res": r["res"], "post": r["post"]}, "expected": v.get("exp")})
+        for r in brecs:
+            run.count_class(r["cls"])
+        agg["n"] += len(brecs)
+        run.traces += len(brecs)
+        run.evaluations += len(brecs)
+        if not agg["sampled"] and brecs:
+            agg["sampled"] = True
+            r = brecs[len(brecs) // 3]
+            run.sample({"config": name, "pre": r["pre"], "call": r["c"],
+                        "decoded": (W.decode_adj(r["c"]["a"]) if r["c"]["op"] == "loaddict" else {"side": r["c"]["a"], "rows": W.decode_rows(r["c"]["b"])}),
+                        "res": r["res"], "post": r["post"]})
+
+    _, confirmed, st = explore.explore(consts, init, index, index, sink=sink, confirmed_out=cref)
     t2 = time.time()
-    brecs = [r for r in records if r["c"]["op"] in ("loaddict", "loadmat")]
-    verdicts = ST.judge("C11", consts, brecs, wd, name, module="JudgeBuild")
-    t3 = time.time()
-    by_id = {r["id"]: r for r in records}
-    for v in verdicts:
-        r = by_id[v["id"]]
-        run.violation(f"{r['cls']}|{'+'.join(sorted(v['fail']))}",
-                      f"{r['c']['op']} a={r['c']['a']} b={r['c']['b']} deviates from the specified result",
-                      {"kind": "builder", "config": name, "consts": {k: (sorted(x) if isinstance(x, set) else x) for k, x in consts.items()},
-                       "path": confirmed.get(W.key(r["pre"])), "call": r["c"],
-                       "observed": {"pre": r["pre"], "res": r["res"], "post": r["post"]}, "expected": v.get("exp")})
-    for r in brecs:
-        run.count_class(r["cls"])
-    run.traces += len(brecs)
-    run.evaluations += len(brecs)
-    if brecs:
-        r = brecs[len(brecs) // 3]
-        run.sample({"config": name, "pre": r["pre"], "call": r["c"], "decoded": (W.decode_adj(r["c"]["a"]) if r["c"]["op"] == "loaddict" else {"side": r["c"]["a"], "rows": W.decode_rows(r["c"]["b"])}),
-                    "res": r["res"], "post": r["post"]})
-    st.update({"builder_records": len(brecs), "failing": len(verdicts), "t_generate_s": round(t1 - t0, 1),
-               "t_execute_s": round(t2 - t1, 1), "t_judge_s": round(t3 - t2, 1)})
+    st.update({"builder_records": agg["n"], "failing": agg["bad"], "t_generate_s": round(t1 - t0, 1),
+               "t_execute_and_judge_s": round(t2 - t1, 1), "t_judge_s": round(agg["judge_s"], 1)})
     run.extra.setdefault("executions", []).append({"config": name, **st})
 
 
